@@ -11,8 +11,16 @@ namespace tpl
 struct V { uint64_t h = 0; };
 using TV = ctpg::term_value<V>;
 
-struct ArgInfo { uint64_t h; uint32_t line, col; bool is_err; };
-struct RuleCall { int slot; std::vector<ArgInfo> args; uint64_t value; bool had_ctx; const void* ctx_addr; bool ctx_const; };
+struct ArgInfo { uint64_t h; uint32_t line, col; bool is_err; bool unexpected = false; };
+struct RuleCall { int slot; std::vector<ArgInfo> args; uint64_t value; bool had_ctx; const void* ctx_addr; bool ctx_const; bool ctx_lvalue = false; long ctx_seen = -1; };
+
+// caller contexts for C13
+struct Ctx { std::vector<int> seen; uint64_t magic = 0xC0FFEE; };
+struct MCtx { std::vector<int> seen; uint64_t magic = 0xC0FFEE; MCtx() = default; MCtx(const MCtx&) = delete; MCtx& operator=(const MCtx&) = delete; MCtx(MCtx&&) = default; MCtx& operator=(MCtx&&) = default; };
+template<class C> long touch_ctx(C&, int) { return -1; }                      // no_type, const contexts: nothing to mutate
+inline long touch_ctx(Ctx& c, int slot) { long n = long(c.seen.size()); c.seen.push_back(slot); return c.magic == 0xC0FFEE ? n : -2; }
+inline long touch_ctx(MCtx& c, int slot) { long n = long(c.seen.size()); c.seen.push_back(slot); return c.magic == 0xC0FFEE ? n : -2; }
+inline long touch_ctx(const Ctx& c, int) { return c.magic == 0xC0FFEE ? long(c.seen.size()) : -2; }
 struct TermCall { int term; const char* data; size_t size; };
 struct CallLog
 {
@@ -38,6 +46,8 @@ struct TermF
 
 inline ArgInfo arginfo(const TV& v) { return ArgInfo{v.get_value().h, v.get_line(), v.get_column(), false}; }
 inline ArgInfo arginfo(const ctpg::no_type&) { return ArgInfo{ref::ERROR_VALUE_HASH, 0, 0, true}; }
+// anything else reaching a rule functor (e.g. a context handed to a '>=' functor) is recorded, not a build error
+template<class X> ArgInfo arginfo(const X&) { ArgInfo a{0xBADBADULL, 0, 0, false}; a.unexpected = true; return a; }
 
 template<int R>
 struct F
@@ -63,6 +73,8 @@ struct FC
     {
         RuleCall c; c.slot = R; c.had_ctx = true; c.ctx_addr = static_cast<const void*>(&ctx);
         c.ctx_const = std::is_const_v<std::remove_reference_t<C>>;
+        c.ctx_lvalue = std::is_lvalue_reference_v<C>;
+        c.ctx_seen = touch_ctx(ctx, R);
         (c.args.push_back(arginfo(a)), ...);
         std::vector<uint64_t> kids; for (auto& x : c.args) kids.push_back(x.h);
         c.value = ref::rule_value_hash(R, kids);
